@@ -3,7 +3,9 @@
    DataTypeManager classes on every run; whole schemas are compared through the JSON Schema pydantic
    reports (falsifier). *)
 From Coq Require Import String.
-From DMCG Require Import Constraints ConstraintsProofs ConstraintTables.
+From DMCG Require Import Constraints ConstraintsProofs ConstraintTables Schema SchemaProofs IdentProofs.
+From Coq Require Import List.
+Import ListNotations.
 Open Scope Z_scope.
 
 (* for every record of numeric constraints with whole-number bounds, in either draft style, and every
@@ -39,6 +41,32 @@ Theorem C04_keyword_filters :
   /\ forallb (fun k => smem k string_kwargs) ["minLength"; "maxLength"; "pattern"]%string = true.
 Proof. vm_compute. split; reflexivity. Qed.
 
+(* whole schemas (model/Schema.v): on the strict sub-language - no item counts below member level unless
+   the field-constraints style is used - everything the generated model accepts is valid under the
+   schema, up to the one relaxation the property allows (null for a member that is not required) *)
+Theorem C04_tables_ok : utab_ok U0 = true.
+Proof. vm_compute. reflexivity. Qed.
+Theorem C04_invalid_rejected :
+  forall o fc s p v,
+    o_noalias o = false -> prefix_ok U0 (o_prefix o) = true ->
+    supported s = true -> strict fc p s = true ->
+    accepts (gen o fc p s) v = true -> valid_relaxed s v = true.
+Proof.
+  intros o fc s p v Hno HP. apply reject_invalid; [exact Hno|]. exact (names_total o C04_tables_ok HP).
+Qed.
+(* outside the strict sub-language the statement is false of the model of the code as it is: the item
+   count of an array inside an array is not written in the constrained-type style (known finding) *)
+Theorem C04_nested_counts_refuted :
+  exists s v, supported s = true /\ valid_relaxed s v = false /\ accepts (gen schema_opts false PTop s) v = true.
+Proof.
+  exists (SObj [(of_string "m", (true, SArr (SArr SBool (Some 2%N) None) None None))] false).
+  exists (VObj [(of_string "m", VArr [VArr [VBool true]])]).
+  vm_compute. repeat split; reflexivity.
+Qed.
+Example C04_strict_nonvacuous :
+  strict false PTop (SObj [(of_string "m", (true, SArr (SArr SBool None None) (Some 1%N) (Some 3%N)))] true) = true
+  /\ strict true PTop (SObj [(of_string "m", (true, SArr (SArr SBool (Some 2%N) None) None None))] false) = true.
+Proof. vm_compute. split; reflexivity. Qed.
 Example C04_integral_nonvacuous :
   integral {| c_min := Some 2; c_max := Some 20; c_xmin := XBool true; c_xmax := XNone; c_mult := Some 5 |} = true.
 Proof. reflexivity. Qed.
@@ -48,3 +76,6 @@ Print Assumptions C04_normalize_preserves_meaning.
 Print Assumptions C04_truncation_refuted.
 Print Assumptions C04_keyword_tables.
 Print Assumptions C04_keyword_filters.
+Print Assumptions C04_tables_ok.
+Print Assumptions C04_invalid_rejected.
+Print Assumptions C04_nested_counts_refuted.
